@@ -222,6 +222,50 @@ def fails_without_ignore(c, op, sc, ch, rep, memo={}):
     return memo[key]
 
 
+def fresh_result_probe():
+    """What a failed read returns belongs to the caller: filling the dict a failed get_many / gets_many returned (the cache-aside
+    pattern) must not change what later failed reads return - on this client or on a new one - from the miss value."""
+    from pymemcache.client.base import Client, PooledClient
+    from pymemcache.client.hash import HashClient
+    found, n = [], 0
+    reads = [(3, b"k", b"dflt"), (4, b"k", b"dflt", b"cd"), (5, b"k", 9, b"dflt"), (6, b"k", 9, b"dflt", b"cd"), (7, False, [b"k", b"a"]), (8, False, [b"k", b"a"])]
+
+    def build(stack):
+        def mk(server, kw):
+            kw["socket_module"].w.refuse.add(server if isinstance(server, str) else (server[0], str(server[1])))      # every connection is refused
+            if stack == "Client":
+                return Client(server, **kw)
+            if stack == "PooledClient":
+                return PooledClient(server, max_pool_size=2, **kw)
+            return HashClient([server], use_pooling="pooling" in stack, retry_attempts=5, retry_timeout=0, **kw)
+        return mk
+
+    def apply(cl, op):
+        if op[0] == "fill":
+            for name in ("get_many", "gets_many"):
+                r = getattr(cl, name)([b"k", b"a"])
+                for k in (b"k", "k", b"a"):
+                    r[k] = (b"poison", b"1") if name == "gets_many" else b"poison"
+            return None
+        return cs.apply_op_kw(cl, op)
+    for stack in ("Client", "PooledClient", "HashClient", "HashClient(use_pooling)"):
+        for tcp in (False, True):
+            c = dict(tcp=tcp, ignore_exc=True, default_noreply=False)
+            n += 1
+            ref = cs.run_impl(c, reads, [], [], (), build(stack), None, None, apply)[0]
+            got = cs.run_impl(c, [("fill",)] + reads, [], [], (), build(stack), None, None, apply)[0]
+            other = cs.run_impl(c, reads, [], [], (), build(stack), None, None, apply)[0]     # a NEW client, after the fill above
+            for label, res in (("the same client", got[1:]), ("a new client", other)):
+                bad = [(op, r, e) for op, r, e in zip(reads, res, ref) if r != e]
+                if bad:
+                    found.append({"clause": "after the caller filled the dict a failed get_many had returned, %r on %s returns %r under the same failure; before, it "
+                                            "returned the miss value %r" % (bad[0][0], label, bad[0][1], bad[0][2]),
+                                  "input": {"class": stack, "cfg": repr(c), "history": "every connection refused; get_many / gets_many, fill the returned dicts, read again"},
+                                  "observed": repr(res), "expected": repr(ref), "size": 2, "fresh_case": repr((stack, tcp))})
+                    break
+    return found, n
+
+
 def search(ctx):
     """The property on the real classes: the result under each failing plan equals the result of the same call on a
     healthy empty server, nothing is raised, and the next call works."""
@@ -281,7 +325,9 @@ def search(ctx):
                                                         "inner_outcomes": repr(outs), "ops": repr(ops)},
                               "observed": repr(r[0]), "size": 100 + len(ops), "hash_case": repr(x)})
                 break
-    ctx.search_summary = {"hash_failover_histories": nhist, "failing_plans_compared_with_the_miss_result": n, "plans_that_do_not_fail_the_call": skipped, "stacks": STACKS}
+    f3, nfresh = fresh_result_probe()
+    found += f3
+    ctx.search_summary = {"fresh_result_probes": nfresh, "hash_failover_histories": nhist, "failing_plans_compared_with_the_miss_result": n, "plans_that_do_not_fail_the_call": skipped, "stacks": STACKS}
     found.sort(key=lambda v: v["size"])
     return found[:1]
 
@@ -292,6 +338,11 @@ def replay(ctx, obj):
         r = hs.run_impl(*eval(v["hash_case"]))
         print("HashClient history ->", r[0])
         return any(x[0] == "e" for x in r[0])
+    if v and v.get("fresh_case"):
+        f, _ = fresh_result_probe()
+        hit = [x for x in f if x["fresh_case"] == v["fresh_case"]]
+        print(hit[0]["clause"] if hit else "failed reads return fresh miss values")
+        return bool(hit)
     if not v or not v.get("case"):
         return None
     stack, c, op, sc, ch, rep = eval(v["case"])
